@@ -233,7 +233,7 @@ def _shifted(env, ds):
 
 
 # ------------------------------------------------------------------ Sampler
-def body_sampler(E, n, bs, reload_, base, i0, i1, i2, i3, ov=False):
+def body_sampler(E, n, bs, reload_, base, i0, i1, i2, i3, ov=False, nb=False):
     n = concretize(n, 1, 2)
     bs = concretize(bs, 1, 2)
     reload_ = cbool(reload_)
@@ -249,8 +249,12 @@ def body_sampler(E, n, bs, reload_, base, i0, i1, i2, i3, ov=False):
         s1.sample_combos(n, combos=override, verbosity=0)
         install_choice(env, [i0, i1, i2, i3])
         s2 = sampler("s2.pkl")
-        crop = s2.Crop(name="sc", parent_dir=env.parent, batchsize=bs)
+        # nb: the crop is configured by batch COUNT instead of batch size
+        crop = s2.Crop(name="sc", parent_dir=env.parent, **({"num_batches": bs} if cbool(nb) else {"batchsize": bs}))
         crop.sow_samples(n, combos=override, verbosity=0)
+        want_b = min(bs, n) if cbool(nb) else -(-n // bs)
+        if crop.num_batches != want_b or len(env.listdir(env.parent + "/.xyz-sc/batches")) != want_b:
+            return False                    # the samples are batched as requested
         grow_all(env, "sc", reload_)
         if reload_:
             crop = cp.Crop(name="sc", parent_dir=env.parent)
@@ -298,9 +302,9 @@ CONDS = [
               bounds="Harvester with data in memory at sow time, another process merging a further point into the "
                      "same file before the reap, crop reaped by the sowing object or by one loaded by name: the file "
                      "holds the union"),
-    make_cond(_G, "sampler", body_sampler, "n:int bs:int reload_:bool base:int i0:int i1:int i2:int i3:int ov:bool",
+    make_cond(_G, "sampler", body_sampler, "n:int bs:int reload_:bool base:int i0:int i1:int i2:int i3:int ov:bool nb:bool",
               ["1 <= n <= 2 and 1 <= bs <= 2 and 0 <= i0 <= 1 and 0 <= i1 <= 1 and 0 <= i2 <= 1 and 0 <= i3 <= 1",
-               "n == 2 or (i2 == 0 and i3 == 0)"], timeout=600,
+               "n == 2 or (i2 == 0 and i3 == 0)", "not nb or not ov"], timeout=600,
               bounds="Sampler crops vs direct sample_combos with the same drawn indices: n<=2, batchsize 1..2, "
                      "reload on/off: same table in memory and on disk"),
 ]
